@@ -73,6 +73,9 @@ FamilyA == << M("add", 0, INF, <<U32, U32>>, U32, {}),
               M("rem2", 0, INF, <<HRem2>>, HRem2, {}),
               M("padref", 0, INF, <<HPad>>, U16, {1}),
               M("remref", 0, INF, <<HRemR>>, U32, {1}),
+              M("resm", 0, INF, <<U8>>, Res(HAdd, Str), {}),               \* Result with an evolving Ok type
+              M("optm", 0, INF, <<Opt(HAdd)>>, Opt(HRem), {}),            \* Option of evolving types, both directions
+              M("vecref", 0, INF, <<HNest>>, U16, {1}),                   \* a Vec of an evolving struct passed by reference
               MN("sink", "sink", HAdd), MN("sinkmid", "sink", HAddMid), MN("viafn", "fn", HAdd), MN("viafnrem", "fn", HRem) >>
 FamilyB == << M("add", 0, INF, <<U32, U32>>, U32, {}),
               [M("changed", 0, INF, <<U32>>, U8, {}) EXCEPT !.chg = 2, !.chgty = Str],
